@@ -9,6 +9,7 @@ testing in the `pages` suite built with the `crc32c` feature, not by a theorem.
 import E57.Proofs.CrcAlgebra
 import E57.Proofs.PagesRead
 import E57.Proofs.CrcBurst
+import E57.Proofs.ToolsProps
 namespace E57.C07
 open E57
 
